@@ -278,7 +278,7 @@ theorem signature_lookup_translated (pjs : Pjs) (lg : LG) (L : Lang) (s : Self) 
   rw [hr'.1.1, hr'.1.2.1.1.2, hr'.2.1.1.2, rep_slotCls h hr] at hsig
   exact hsig
 
-/-- **`maxItems` = the declared maximum, 0 included** (fix 6ddb0c4): a field declared with maximum 0 admits no member -/
+/-- **`maxItems` = the declared maximum, 0 included** (fix 6ddb0c4): a field declared with maximum 0 takes no member -/
 theorem max_zero_translated (pjs : Pjs) (lg : LG) (L : Lang) (s : Self) (h : RepLG lg L) (hb : Built pjs lg s)
     (hn : AssetNamesDistinct L) (hc : ClassNamesDistinct L) (d : AssocDecl) (hd : d ∈ L.assocs)
     (hf : d.leftField ≠ d.rightField) (h0 : d.leftMax = some 0) :
@@ -286,7 +286,7 @@ theorem max_zero_translated (pjs : Pjs) (lg : LG) (L : Lang) (s : Self) (h : Rep
       ∀ n, okCount c.lmax n = true ↔ n = 0 := by
   refine ⟨classOf L d, assoc_class_translated pjs lg L s h hb hn hc d hd hf, h0, fun n => ?_⟩
   show okCount d.leftMax n = true ↔ n = 0
-  rw [h0]; exact MalVerif.C06.max_zero_admits_nothing n
+  rw [h0]; simp [okCount]
 
 /-- KF-C06-1 reproduced by the translated code: a declaration whose two ends carry the same field name gets a class
 with a single field - the right end's, with the right end's type and maximum - so it is not one of the hand model's
